@@ -21,7 +21,7 @@ class Ob:
     """one obligation: a harness function explored over all paths within its stated bound"""
 
     def __init__(self, name, fn, bound, params=None, expect=(), rlimit=30_000_000, max_paths=200000,
-                 max_decisions=600, deadline_s=600, max_violations=1, weight=1, cap=None):
+                 max_decisions=3000, deadline_s=600, max_violations=1, weight=1, cap=None):
         self.cap = cap
         self.name = name
         self.fn = fn
